@@ -248,6 +248,25 @@ class Kernel:
                 return KFold(kind="COMPR", term=le[2], source=le[0], filter=le[1], whole=le[3], loop=loop, via="comprehension", ckind=loop.ckind)
             return KFold(kind="COMPR", term=self.canon(loop.elt, loop.id), source=self._src(loop), filter=self.canon(flt, loop.id),
                          whole=loop.whole, loop=loop, via="comprehension", ckind=loop.ckind)
+        if t[0] == "attr" and t[1][0] == "call" and t[1][1] in ("max", "min") and len(t[1][2]) == 1 and dict(t[1][3]).get("key") is not None:
+            # min(objects, key=attrgetter(F)).G  - the field G of the successor object with the smallest F
+            keyf = dict(t[1][3])["key"]
+            F = keyf[2][0][1] if keyf[0] == "call" and keyf[1] in ("attrgetter", "operator.attrgetter") and len(keyf[2]) == 1 and is_const(keyf[2][0]) else None
+            arg = t[1][2][0]
+            last_wins = False
+            while arg[0] == "call" and arg[1] in ("reversed", "list", "tuple") and len(arg[2]) == 1:
+                last_wins = last_wins != (arg[1] == "reversed")
+                arg = arg[2][0]
+            le = self.listexpr(arg)
+            obj = ("idx", ("v", self.slist), ("t",))
+            if F is not None and le is not None and le[2] == obj and set(dict(t[1][3])) == {"key"}:
+                of = KFold(kind="EXT", sense=t[1][1], strict=(not last_wins), init=None, term=("sf", ("t",), F), source=le[0], filter=le[1], whole=le[3], loop=None,
+                           via="builtin %s(key=attrgetter)" % t[1][1], has_break=False, has_return=False)
+                if t[2] == F:
+                    return of
+                return KFold(kind="ARG", of=of, term=("sf", ("t",), t[2]), source=le[0], filter=le[1], whole=le[3], loop=None, init=None,
+                             via="field of the arg-%s object" % t[1][1], has_break=False, has_return=False)
+            return None
         if t[0] == "call" and t[1] in ("sum", "max", "min") and 1 <= len(t[2]) <= 2:
             le, extra = self._list_arg(t[2][0])
             if le is None:
